@@ -12,7 +12,9 @@ EXTENDS GenDir, TLC, Json
 CONSTANTS MaxRuns,      \* length of histories
           SpecSet,      \* subset of {"s0","s1","s2","sP","sH"}
           MaxTouch,     \* number of user edits allowed in one history
-          UserFiles     \* names of files goag does not own
+          UserFiles,    \* names of files goag does not own
+          DneSet,       \* values of the header option that occur in a history ({TRUE}: the CLI default throughout)
+          GuardedRemove \* FALSE: goag.go as pinned; TRUE: the defect class of GenDir.ApplyG (negative control)
 
 VARIABLES dir, pc, cur, i, last, res, n, touches, hist
 vars == <<dir, pc, cur, i, last, res, n, touches, hist>>
@@ -25,10 +27,10 @@ Files == Owned \cup UserFiles
 HasComp(s) == s \in {"s1", "s2", "sH"}
 FailStep(s, c, a) == IF s = "sP" THEN 1 ELSE IF s = "sH" /\ a THEN 2 ELSE IF s = "sH" /\ c THEN 6 ELSE 0
 
-Invs == { [spec |-> s, comp |-> HasComp(s), client |-> c, api |-> a, fail |-> FailStep(s, c, a)] :
-            s \in SpecSet, c \in BOOLEAN, a \in BOOLEAN }
+Invs == { [spec |-> s, comp |-> HasComp(s), client |-> c, api |-> a, dne |-> d, fail |-> FailStep(s, c, a)] :
+            s \in SpecSet, c \in BOOLEAN, a \in BOOLEAN, d \in DneSet }
 
-NoInv == [spec |-> "none", comp |-> FALSE, client |-> FALSE, api |-> FALSE, fail |-> 0]
+NoInv == [spec |-> "none", comp |-> FALSE, client |-> FALSE, api |-> FALSE, dne |-> TRUE, fail |-> 0]
 
 Init == /\ dir = [f \in Files |-> IF f \in Owned THEN AbsentTok ELSE "user0:" \o f]
         /\ pc = "idle" /\ cur = NoInv /\ i = 0 /\ last = NoInv /\ res = "none"
@@ -36,11 +38,11 @@ Init == /\ dir = [f \in Files |-> IF f \in Owned THEN AbsentTok ELSE "user0:" \o
 
 Start(inv) == /\ pc = "idle" /\ n < MaxRuns
               /\ pc' = "run" /\ cur' = inv /\ i' = 1
-              /\ hist' = Append(hist, [k |-> "run", spec |-> inv.spec, client |-> inv.client, api |-> inv.api, f |-> "", how |-> ""])
+              /\ hist' = Append(hist, [k |-> "run", spec |-> inv.spec, client |-> inv.client, api |-> inv.api, dne |-> inv.dne, f |-> "", how |-> ""])
               /\ UNCHANGED <<dir, last, res, n, touches>>
 
 Step == /\ pc = "run" /\ i <= Len(Steps(cur)) /\ cur.fail # i
-        /\ dir' = Apply(dir, cur, Steps(cur)[i])
+        /\ dir' = ApplyG(dir, cur, Steps(cur)[i], GuardedRemove)
         /\ i' = i + 1
         /\ UNCHANGED <<pc, cur, last, res, n, touches, hist>>
 
@@ -56,7 +58,7 @@ Return == /\ pc = "run" /\ i > Len(Steps(cur)) /\ cur.fail = 0
 Touch(f, how) == /\ pc = "idle" /\ touches < MaxTouch /\ n < MaxRuns /\ n >= 1
                  /\ dir' = [dir EXCEPT ![f] = IF how = "delete" THEN AbsentTok ELSE "edit" \o ToString(n) \o ":" \o f]
                  /\ touches' = touches + 1 /\ res' = "none"
-                 /\ hist' = Append(hist, [k |-> "touch", spec |-> "", client |-> FALSE, api |-> FALSE, f |-> f, how |-> how])
+                 /\ hist' = Append(hist, [k |-> "touch", spec |-> "", client |-> FALSE, api |-> FALSE, dne |-> TRUE, f |-> f, how |-> how])
                  /\ UNCHANGED <<pc, cur, i, last, n>>
 
 EmitHist == /\ pc = "idle" /\ n >= 1 /\ hist[Len(hist)].k = "run"
